@@ -64,7 +64,17 @@ func (r *Reader) readIloc(b *box) (err error) {
 		ilb.items = make([]ilocEntry, 0, ilb.count)
 	}
 
-	for i := 0; i < len(buf); {
+	if !validUintN(ilb.offsetSize) || !validUintN(ilb.lengthSize) || !validUintN(ilb.baseOffsetSize) {
+		return errIlocFieldSize
+	}
+	// bytes of an entry before its extents: item ID, (construction method), data reference index, base offset, extent count
+	entrySize := 6 + int(ilb.baseOffsetSize)
+	if b.flags.version() > 0 {
+		entrySize += 2
+	}
+
+entries:
+	for i := 0; i+entrySize <= len(buf); {
 		var ent ilocEntry
 		ent.id = itemID(bmffEndian.Uint16(buf[i : i+2]))
 		i += 2
@@ -88,6 +98,9 @@ func (r *Reader) readIloc(b *box) (err error) {
 		for j := 0; j < int(ent.count); j++ {
 			var ol offsetLength
 			if j == 0 {
+				if i+int(ilb.offsetSize)+int(ilb.lengthSize) > len(buf) {
+					break entries
+				}
 				ol.offset = uintN(ilb.offsetSize, buf[i:i+int(ilb.offsetSize)])
 				i += int(ilb.offsetSize)
 				ol.length = uintN(ilb.lengthSize, buf[i:i+int(ilb.lengthSize)])
@@ -145,6 +158,16 @@ func uintN(size uint8, buf []byte) uint64 {
 	case 8:
 		return bmffEndian.Uint64(buf[:8])
 	default:
-		panic("error here")
+		// size 0: the field is absent
+		return 0
 	}
+}
+
+// validUintN reports whether uintN can read a field of the given size (0 = field absent).
+func validUintN(size uint8) bool {
+	switch size {
+	case 0, 1, 2, 4, 8:
+		return true
+	}
+	return false
 }
